@@ -717,7 +717,41 @@ func ruleMDASSIGN(c *Ctx) []Obligation {
 			return true
 		})
 		o3.Pos = c.pos(wi.writeTo.Pos())
+		// both calls are executed on every call of WriteTo: the only construct allowed around
+		// them is the `if err := m.AssignXIDs(); err != nil { … }` that holds the call in its Init
+		condPos, condWhat := token.NoPos, ""
+		wpm := buildParents(wi.writeTo.Body)
+		ast.Inspect(wi.writeTo.Body, func(nd ast.Node) bool {
+			call, ok := nd.(*ast.CallExpr)
+			if !ok {
+				return true
+			}
+			se, ok := unparen(call.Fun).(*ast.SelectorExpr)
+			if !ok || (se.Sel.Name != "AssignGlobalIDs" && se.Sel.Name != "AssignMetadataIDs") {
+				return true
+			}
+			var child ast.Node = call
+			for p := wpm[call]; p != nil; child, p = p, wpm[p] {
+				switch p := p.(type) {
+				case *ast.IfStmt:
+					if p.Init != nil && child == ast.Node(p.Init) {
+						continue
+					}
+					if condPos == token.NoPos {
+						condPos, condWhat = p.Pos(), se.Sel.Name+" is called only under `if "+exprString(p.Cond)+"`"
+					}
+				case *ast.ForStmt, *ast.RangeStmt, *ast.SwitchStmt, *ast.TypeSwitchStmt, *ast.CaseClause, *ast.FuncLit:
+					if condPos == token.NoPos {
+						condPos, condWhat = p.Pos(), fmt.Sprintf("%s is called inside a %T", se.Sel.Name, p)
+					}
+				}
+			}
+			return true
+		})
 		switch {
+		case condPos != token.NoPos:
+			o3.Verdict, o3.Pos = VIOL, c.pos(condPos)
+			o3.Detail = condWhat + ": on the paths that skip it, definitions that still have no ID are printed without one (a metadata definition appears as `!{…} = !{…}` and its uses as inline copies), and the duplicate-ID check does not run"
 		case aG == 0 || aM == 0:
 			o3.Verdict, o3.Detail = VIOL, "WriteTo does not call both AssignGlobalIDs and AssignMetadataIDs: unnumbered definitions print with stale or zero IDs"
 		case firstWrite != 0 && (aG > firstWrite || aM > firstWrite):
